@@ -180,7 +180,7 @@ fn unassign_invalid_multi_jobs(
 ) -> Vec<Job> {
     let new_route_ctx = new_insertion_ctx.solution.routes.get_mut(route_idx).unwrap();
 
-    synchronized
+    let unassigned = synchronized
         .iter()
         .filter_map(|(job, singles)| match job {
             Job::Multi(multi) => Some((job, multi, singles)),
@@ -193,7 +193,14 @@ fn unassign_invalid_multi_jobs(
             }
 
             unassigned
-        })
+        });
+
+    // NOTE: the tour is shorter now, so cached route state has to be refreshed before next insertion
+    if !unassigned.is_empty() {
+        new_insertion_ctx.problem.goal.accept_route_state(new_route_ctx);
+    }
+
+    unassigned
 }
 
 fn compare_singles(multi: &Multi, singles: &[Arc<Single>]) -> bool {
